@@ -179,6 +179,81 @@ def run(ctx):
                 for r in range(off[b], off[b] + counts[b]):
                     exp[r] = gv
             coq_jobs.append((expr, exp, dict(case, indices_set_by_trainables=inds)))
+    # ---- edge keys (synapse parameters and initial states) with interleaved synapse types
+    from jaxley.connect import connect
+    from jaxley.synapses import IonotropicSynapse, TestSynapse
+    for ci in range(ctx.budget(4, 25)):
+        try:
+            comp = jx.Compartment()
+            with quiet():
+                ncell = rng.randint(3, 4)
+                net = jx.Network([jx.Cell([jx.Branch([comp] * rng.randint(1, 2))], parents=[-1]) for _ in range(ncell)])
+                n = len(net.nodes)
+                tys = [TestSynapse, IonotropicSynapse, IonotropicSynapse] + [rng.choice([TestSynapse, IonotropicSynapse]) for _ in range(rng.randint(0, 2))]
+                if ci % 2:
+                    tys = [IonotropicSynapse, TestSynapse, IonotropicSynapse, TestSynapse]
+                for t in tys:
+                    a, b = rng.sample(range(n), 2)
+                    connect(net.select(nodes=[a]), net.select(nodes=[b]), t())
+                for k in range(n):
+                    net.select(nodes=[k]).set("v", -70.0 + 2 * k)
+                net.record("v")
+            names = [t.__name__ for t in tys]
+            ty = rng.choice(sorted(set(names)))
+            key = rng.choice([f"{ty}_gS" if ty == "IonotropicSynapse" else f"{ty}_gC", f"{ty}_s" if ty == "IonotropicSynapse" else f"{ty}_c"])
+            es = [e for e, nm in enumerate(names) if nm == ty]
+            pick = sorted(rng.sample(es, rng.randint(1, len(es))))
+            x = 0.61 if key[-1] in "sc" else 3.5e-4
+            how = rng.choice(["type", "select"])
+            mk = (lambda m: getattr(m, ty).edge([es.index(e) for e in pick])) if how == "type" else (lambda m: m.select(edges=pick))
+            case = {"synapse_types": names, "key": key, "edges": pick, "via": how, "value": x}
+            distinct.add((tuple(names), key, tuple(pick), how))
+
+            def arrays(m, pstate):
+                with quiet():
+                    m.to_jax()
+                    ps = m.get_all_parameters(pstate, voltage_solver="jaxley.thomas")
+                    st = m.get_all_states(pstate, ps, 0.025)
+                d = {k: np.asarray(v) for k, v in ps.items() if k in m.edges.columns}
+                d.update({k: np.asarray(v) for k, v in st.items() if k in m.edges.columns})
+                return d
+            base = arrays(net, [])
+            A = copy.deepcopy(net)
+            with quiet():
+                mk(A).set(key, x)
+                outA = np.asarray(jx.integrate(A, t_max=0.05, voltage_solver="jax.sparse"))
+            arrA = arrays(A, [])
+            with quiet():
+                pst = mk(net).data_set(key, x, None)
+                outB = np.asarray(jx.integrate(net, param_state=pst, t_max=0.05, voltage_solver="jax.sparse"))
+            arrB = arrays(net, pst)
+            C = copy.deepcopy(net)
+            with quiet():
+                mk(C).make_trainable(key, x)
+                params = C.get_parameters()
+                outC = np.asarray(jx.integrate(C, params, t_max=0.05, voltage_solver="jax.sparse"))
+            arrC = arrays(C, params_to_pstate(params, C.indices_set_by_trainables))
+            evals += 3
+            if not (np.allclose(outA, outB, rtol=0, atol=1e-10) and np.allclose(outA, outC, rtol=0, atol=1e-10)):
+                viol.append(dict(case, kind="set, data_set and make_trainable give different simulations (edge key)",
+                                 max_ab=float(np.abs(outA - outB).max()), max_ac=float(np.abs(outA - outC).max())))
+            for nm, arr in (("set", arrA), ("data_set", arrB), ("make_trainable", arrC)):
+                for k2, a in arr.items():
+                    owner = [e for e, t in enumerate(names) if k2.startswith(t + "_")]
+                    want = [x if (k2 == key and e in pick) else float(base[k2][owner.index(e)]) for e in owner]
+                    if [float(v) for v in a] != want:
+                        viol.append(dict(case, kind=f"{nm}: the value did not reach exactly the selected synapses", array=k2,
+                                         got=[float(v) for v in a], expected=want))
+                        break
+            with quiet():
+                C.write_trainables(params)
+            tab = [float(C.edges.loc[e, key]) for e in es]
+            if tab != [float(v) for v in arrC[key]]:
+                viol.append(dict(case, kind="write_trainables stored other values than were simulated (edge key)", table=tab,
+                                 simulated=[float(v) for v in arrC[key]]))
+        except Exception as ex:
+            import traceback
+            viol.append({"kind": "edge-key set / data_set / make_trainable raised", "error": repr(ex)[:300], "trace": traceback.format_exc()[-500:]})
     try:
         outs = coqeval.coq_eval(["Index"], [j[0] for j in coq_jobs], prelude="Close Scope Q_scope. Open Scope nat_scope.")
         import re
